@@ -9,6 +9,7 @@ import Props.Tables
 import Spec.Semantics
 import Jmes.Interp
 import Proofs.Printer
+import Props.Bytes
 namespace Jmes.Props
 open Jmes Jmes.Interp Jmes.Spec
 
@@ -243,5 +244,19 @@ theorem C01_printed_core_evaluates_to_den (ft : List FnEntry) (e : PE N) (hc : i
   show eval ft (node e) d = _
   rw [node_coreOf e hc]
   exact C01_core_conformance ft _ d
+
+open Jmes.Lexer in
+/-- **End to end from bytes.**  Any rendering (any white space) of a printed core
+    expression: `Search` returns the specification's value. -/
+theorem C01_written_core_evaluates_to_den (e : PE N) (hc : isCore e = true) (hw : Parser.wf e)
+    (keys : List (TokType × Bytes)) (s : Bytes) (hk : KeysOf (ppE e) keys) (hr : Rendered keys s) (d : Val N) :
+    Api.search Model.cfg s d = .ok (den (coreOf e) d) := by
+  have hcomp : (Api.compile Model.cfg s : Res (Node N)) = .ok (node e) := by
+    refine compile_rendered hk hr ?_
+    rw [parseTokens_congr (sameDecisions_of_tableOK Generated.table Spec.table generated_table_ok spec_table_ok)]
+    exact round_trip_spec e hw
+  simp only [Api.search, hcomp]
+  rw [node_coreOf e hc]
+  exact C01_core_conformance _ _ d
 
 end Jmes.Props
